@@ -230,3 +230,48 @@ VMC_SEQ_HARNESS(coro_script, "C10,C11,C01,C02") {
   if (ctx.sched_ops_alive != 0) fail("C10,C02", "sched-op-leak", "schedule() operation leaked");
   ex::g = nullptr; R = nullptr;
 }
+
+// co_return whose conversion to the task's result type throws: the task completes with that exception, cleanups
+// still run, and no result object is destroyed that was never constructed
+namespace {
+struct RetLedger { int ctor = 0, dtor = 0, bad_dtor = 0; std::set<const void*> live; };
+RetLedger* RL;
+struct RetVal {
+  int v;
+  RetVal(int x) : v(x) { if (x < 0) throw kit::tagged_error{800 - x}; ++RL->ctor; RL->live.insert(this); }
+  RetVal(const RetVal& o) : v(o.v) { ++RL->ctor; RL->live.insert(this); }
+  RetVal(RetVal&& o) noexcept : v(o.v) { ++RL->ctor; RL->live.insert(this); }
+  ~RetVal() { if (!RL->live.erase(this)) ++RL->bad_dtor; ++RL->dtor; }
+};
+int g_ret_cleanups;
+task<RetVal> ret_task(int x, int ncleanup) {
+  for (int i = 0; i < ncleanup; ++i) co_await at_coroutine_exit([]() -> task<void> { ++g_ret_cleanups; co_return; });
+  co_return x;   // int -> RetVal: throws for negative x
+}
+task<int> ret_outer(int x, int ncleanup, int depth) {
+  try {
+    if (depth > 0) { int v = co_await ret_outer(x, ncleanup, depth - 1); co_return v; }
+    RetVal r = co_await ret_task(x, ncleanup);
+    co_return r.v;
+  } catch (const kit::tagged_error& e) { co_return -e.tag; }
+}
+}  // namespace
+VMC_SEQ_HARNESS(coro_return_throws, "C10,C02") {
+  int x = vmc::choose(2) ? 5 : -1; int ncleanup = vmc::choose(3); int depth = vmc::choose(3);
+  RetLedger led; RL = &led; g_ret_cleanups = 0;
+  ex::Ctx ctx; ex::g = &ctx;
+  {
+    inplace_stop_source src; Top top; top.src = &src;
+    {
+      auto op = unifex::connect(ret_outer(x, ncleanup, depth), ex::rref{&top});
+      ctx.cur_ctx = 7; unifex::start(op); ctx.cur_ctx = 0;
+    }
+    vmc::check(top.count == 1 && top.how == 'V', "C10,C01", "result", "task did not complete with a value");
+    vmc::check(top.v == (x < 0 ? -(800 - x) : x), "C10", "result", "an exception thrown while converting the co_return operand did not become the task's error (got " + std::to_string(top.v) + ")");
+    vmc::check(g_ret_cleanups == ncleanup, "C10", "cleanup-count", "cleanup actions did not run exactly once each on the exception exit path");
+  }
+  vmc::check(led.bad_dtor == 0, "C10,C02", "destroyed-never-constructed", "a task result object was destroyed that was never constructed");
+  vmc::check(led.ctor == led.dtor && led.live.empty(), "C10,C02", "result-ledger", "task result objects constructed " + std::to_string(led.ctor) + " times, destroyed " + std::to_string(led.dtor) + " times");
+  vmc::note(std::string(x < 0 ? "throw" : "value") + std::to_string(ncleanup) + "d" + std::to_string(depth));
+  ex::g = nullptr;
+}
